@@ -147,11 +147,17 @@ Section Oracles.
   Variable fmtv : dy -> string.
   Variable parsef : string -> option dy.
 
-  (* fmt.Sprintf("%v", v) *)
+  (* convertToString on a float64: a whole number below 2^63 in magnitude is printed as that
+     integer (repo commit "fix: whole numbers stringify the same ..."), anything else with %v *)
+  Definition f64_str (d : dy) : string :=
+    let t := dy_trunc d in
+    if dy_eqb d (Dy t 0) && (Z.abs t <? 2 ^ 63) then dec t else fmtv d.
+
+  (* config.convertToString *)
   Definition sval_str (v : sval) : string :=
     match v with
     | SInt z => dec z
-    | SF64 d => fmtv d
+    | SF64 d => f64_str d
     | SStr s => s
     | SBool b => bool_str b
     | SNil => "<nil>"
@@ -160,16 +166,19 @@ Section Oracles.
   Definition cscalar_str (c : cscalar) : string :=
     match c with
     | CInt z | CInt64 z => dec z
-    | CF64 d => fmtv d
+    | CF64 d => f64_str d
     | CStr s => s
     | CBool b => bool_str b
     | CNil => "<nil>"
     | COther t => t
     end.
+  (* an element inside a list printed by %v (no whole-number special case there) *)
+  Definition cscalar_vstr (c : cscalar) : string :=
+    match c with CF64 d => fmtv d | _ => cscalar_str c end.
   Definition cval_str (c : cval) : string :=
     match c with
     | CScalar x => cscalar_str x
-    | CList l => "[" ++ str_join " " (map cscalar_str l) ++ "]"
+    | CList l => "[" ++ str_join " " (map cscalar_vstr l) ++ "]"
     end.
 
   (* tryConvertToInt *)
